@@ -55,6 +55,10 @@ pub struct Walker<'a> {
     top_stmt: usize,
     pub events: Vec<PrintEvent>,
     pub calls: Vec<CallEvent>,
+    // first evaluation of each binary operator (operands already evaluated):
+    // where a type error of that operator would surface
+    pub ops: Vec<CallEvent>,
+    ops_seen: std::collections::BTreeSet<NodeId>,
     off: u64,
     pub overflow: bool,
 }
@@ -63,7 +67,7 @@ const MAX_EVENTS: usize = 400;
 
 impl<'a> Walker<'a> {
     pub fn new(prog: &'a Prog, removed: &'a std::collections::BTreeSet<usize>) -> Walker<'a> {
-        Walker { prog, removed, frames: vec![], interp: 0, loops: 0, root_in_return: false, top_stmt: 0, events: vec![], calls: vec![], off: 0, overflow: false }
+        Walker { prog, removed, frames: vec![], interp: 0, loops: 0, root_in_return: false, top_stmt: 0, events: vec![], calls: vec![], ops: vec![], ops_seen: Default::default(), off: 0, overflow: false }
     }
 
     pub fn run(&mut self) {
@@ -103,6 +107,26 @@ impl<'a> Walker<'a> {
             loop_iter: self.loops > 0,
             via_return: self.root_in_return || self.frames.iter().any(|f| f.in_return),
         });
+    }
+
+    // the call context at this instant, for a failure raised at `node`
+    fn context_event(&self, node: NodeId) -> CallEvent {
+        let mut chain = vec![];
+        let mut chain_in_slot = vec![];
+        for i in (0..self.frames.len()).rev() {
+            chain_in_slot.push(self.frames[i].interp);
+            let container = if i == 0 { "<root>".to_string() } else { self.prog.fns[self.frames[i - 1].fn_id].display() };
+            chain.push((self.frames[i].call_node, container));
+        }
+        CallEvent {
+            node,
+            off: self.off,
+            func: self.frames.last().map(|f| self.prog.fns[f.fn_id].display()),
+            chain,
+            chain_in_slot,
+            in_interp: self.interp > 0 || self.frames.iter().any(|f| f.interp),
+            via_return: self.root_in_return || self.frames.iter().any(|f| f.in_return),
+        }
     }
 
     fn stmts(&mut self, ss: &[Stmt]) -> Flow {
@@ -275,22 +299,8 @@ impl<'a> Walker<'a> {
                 }
                 if !matches!(callee, Callee::Anon(_) | Callee::Returned(..)) {
                     if self.calls.len() < 4 * MAX_EVENTS {
-                        let mut chain = vec![];
-                        let mut chain_in_slot = vec![];
-                        for i in (0..self.frames.len()).rev() {
-                            chain_in_slot.push(self.frames[i].interp);
-                            let container = if i == 0 { "<root>".to_string() } else { self.prog.fns[self.frames[i - 1].fn_id].display() };
-                            chain.push((self.frames[i].call_node, container));
-                        }
-                        self.calls.push(CallEvent {
-                            node: *node,
-                            off: self.off,
-                            func: self.frames.last().map(|f| self.prog.fns[f.fn_id].display()),
-                            chain,
-                            chain_in_slot,
-                            in_interp: self.interp > 0 || self.frames.iter().any(|f| f.interp),
-                            via_return: self.root_in_return || self.frames.iter().any(|f| f.in_return),
-                        });
+                        let ev = self.context_event(*node);
+                        self.calls.push(ev);
                     }
                 }
                 let fid = callee.fn_id();
@@ -317,9 +327,13 @@ impl<'a> Walker<'a> {
                 self.interp = saved_interp;
                 self.frames.pop();
             }
-            Expr::Bin(_, l, r) => {
+            Expr::Bin(node, _, l, r) => {
                 self.expr(l);
                 self.expr(r);
+                if !self.overflow && self.ops_seen.insert(*node) {
+                    let ev = self.context_event(*node);
+                    self.ops.push(ev);
+                }
             }
             Expr::List(items) => {
                 for (it, _) in items {
